@@ -31,8 +31,20 @@ def okp_curve(obj):
     raise ValueError("not an OKP key")
 
 
+_LOADED = {}
+
+
 def load(jwk, private=None):
-    """JWK dict -> oct bytes or cryptography key object. private=None: private if 'd' present."""
+    """JWK dict -> oct bytes or cryptography key object (immutable, so cached). private=None: private if 'd' present."""
+    if jwk.get("kty") == "RSA" and isinstance(jwk.get("n"), str):
+        ck = (private, tuple(sorted((k, v) for k, v in jwk.items() if isinstance(v, str))))
+        if ck not in _LOADED:
+            _LOADED[ck] = _load(jwk, private)
+        return _LOADED[ck]
+    return _load(jwk, private)
+
+
+def _load(jwk, private=None):
     kty = jwk["kty"]
     if kty == "oct":
         return b64.dec(jwk["k"])
